@@ -503,6 +503,9 @@ Definition json_null : bytes := hx "6e756c6c".
 Definition merge_panics (p : Payload) (s : Snap) : bool :=
   negb (is_empty (s_raw s)) && negb (is_empty (p_raw p)) && bytes_eqb (p_canon p) json_null.
 
+(* an empty payload is not unmarshalled at all: it merges like the empty object *)
+Definition merge_decodes (p : Payload) : bool := is_empty (p_raw p) || p_tok p.
+
 (* defined for every input; callers test [merge_panics] first *)
 Definition mergeMessageEventTerminalPayload (p : Payload) (s : Snap) : Payload :=
   if is_empty (s_raw s) then p
@@ -512,7 +515,7 @@ Definition mergeMessageEventTerminalPayload (p : Payload) (s : Snap) : Payload :
       mkPayload [] None None [] (p_tok p)
                 (if p_tok p then option_map (fun _ => p_tsnap_canon p) (p_tsnap p) else None)
                 (p_tsnap_canon p) (p_treason p) (p_terror p) true true
-    else if p_tok p then
+    else if merge_decodes p then
       mkPayload [] None None [] true (tsnap_of_canon (s_canon s)) (s_canon s) (p_treason p) (p_terror p) true
                 (is_some (tsnap_of_canon (s_canon s)))
     else
